@@ -28,7 +28,7 @@ def main():
         meta = json.load(open(mp))
         # a later fix: commit in /repo may touch the same lines: a ported variant of the patch (same meaning)
         # is then stored beside the original as patch.after-<commit>.diff
-        cands = [os.path.join(d, "patch.diff")] + sorted(glob.glob(os.path.join(d, "patch.after-*.diff")))
+        cands = sorted(glob.glob(os.path.join(d, "patch.after-*.diff")), key=os.path.getmtime, reverse=True) + [os.path.join(d, "patch.diff")]
         used = None
         for cnd in cands:
             r = sh(["git", "-C", REPO, "apply", "--check", cnd])
